@@ -23,7 +23,14 @@ pub struct TermInfo {
     pub alien: bool,
     /// number of distinct sub-terms (size of the DAG)
     pub size: u32,
+    /// rough estimate of the work an automaton construction needs for the term (sum over
+    /// concatenation / union / intersection, product with loop counters, saturating)
+    pub cost: u64,
 }
+
+/// above this estimate a term is opaque for R-dfa, and searches over its whole derivative graph
+/// (compile, closure, emptiness, witness) are not requested: they are legitimately slow
+pub const COST_CAP: u64 = 3_000;
 
 pub type Memo = HashMap<usize, Arc<TermInfo>>;
 
@@ -43,6 +50,7 @@ pub fn term_info(r: RegLan, alpha: &Alphabet, memo: &mut Memo) -> Arc<TermInfo> 
             big: false,
             alien: false,
             size: 1,
+            cost: 1,
         },
         BaseRegLan::Epsilon => TermInfo {
             ast: ast::eps(),
@@ -50,6 +58,7 @@ pub fn term_info(r: RegLan, alpha: &Alphabet, memo: &mut Memo) -> Arc<TermInfo> 
             big: false,
             alien: false,
             size: 1,
+            cost: 1,
         },
         BaseRegLan::Range(set) => {
             let (s, e) = set.verif_bounds();
@@ -67,13 +76,16 @@ pub fn term_info(r: RegLan, alpha: &Alphabet, memo: &mut Memo) -> Arc<TermInfo> 
                 big: false,
                 alien: !aligned,
                 size: 1,
+                cost: 1,
             }
         }
         BaseRegLan::Concat(a, b) => {
             let ia = term_info(a, alpha, memo);
             let ib = term_info(b, alpha, memo);
             let dfa = match (&ia.dfa, &ib.dfa) {
-                (Some(x), Some(y)) => x.concat(y).map(Arc::new),
+                (Some(x), Some(y)) if ia.cost.saturating_add(ib.cost) <= COST_CAP => {
+                    x.concat(y).map(Arc::new)
+                }
                 _ => None,
             };
             TermInfo {
@@ -82,14 +94,19 @@ pub fn term_info(r: RegLan, alpha: &Alphabet, memo: &mut Memo) -> Arc<TermInfo> 
                 big: ia.big || ib.big,
                 alien: ia.alien || ib.alien,
                 size: 1 + ia.size + ib.size,
+                cost: ia.cost.saturating_add(ib.cost),
             }
         }
         BaseRegLan::Loop(e, range) => {
             let ie = term_info(e, alpha, memo);
             let (lo, hi) = range.verif_bounds();
+            let cost = ie
+                .cost
+                .saturating_mul(hi.unwrap_or(lo).max(lo).max(1) as u64)
+                .saturating_add(1);
             let dfa = match &ie.dfa {
-                Some(x) => x.repeat(lo, hi).map(Arc::new),
-                None => None,
+                Some(x) if cost <= COST_CAP => x.repeat(lo, hi).map(Arc::new),
+                _ => None,
             };
             TermInfo {
                 ast: ast::looped(&ie.ast, lo, hi),
@@ -97,6 +114,7 @@ pub fn term_info(r: RegLan, alpha: &Alphabet, memo: &mut Memo) -> Arc<TermInfo> 
                 big: ie.big || lo >= BIG_LOOP || hi.map(|h| h >= BIG_LOOP).unwrap_or(false),
                 alien: ie.alien,
                 size: 1 + ie.size,
+                cost,
             }
         }
         BaseRegLan::Complement(e) => {
@@ -107,12 +125,14 @@ pub fn term_info(r: RegLan, alpha: &Alphabet, memo: &mut Memo) -> Arc<TermInfo> 
                 big: ie.big,
                 alien: ie.alien,
                 size: 1 + ie.size,
+                cost: ie.cost.saturating_add(1),
             }
         }
         BaseRegLan::Union(list) => {
             let infos: Vec<Arc<TermInfo>> =
                 list.iter().map(|x| term_info(x, alpha, memo)).collect();
-            let mut dfa = Some(Dfa::empty(k));
+            let cost = infos.iter().fold(1u64, |a, i| a.saturating_add(i.cost));
+            let mut dfa = if cost <= COST_CAP { Some(Dfa::empty(k)) } else { None };
             for i in &infos {
                 dfa = match (dfa, &i.dfa) {
                     (Some(acc), Some(x)) => acc.union(x),
@@ -125,12 +145,14 @@ pub fn term_info(r: RegLan, alpha: &Alphabet, memo: &mut Memo) -> Arc<TermInfo> 
                 big: infos.iter().any(|i| i.big),
                 alien: infos.iter().any(|i| i.alien),
                 size: 1 + infos.iter().map(|i| i.size).sum::<u32>(),
+                cost,
             }
         }
         BaseRegLan::Inter(list) => {
             let infos: Vec<Arc<TermInfo>> =
                 list.iter().map(|x| term_info(x, alpha, memo)).collect();
-            let mut dfa = Some(Dfa::full(k));
+            let cost = infos.iter().fold(1u64, |a, i| a.saturating_add(i.cost));
+            let mut dfa = if cost <= COST_CAP { Some(Dfa::full(k)) } else { None };
             for i in &infos {
                 dfa = match (dfa, &i.dfa) {
                     (Some(acc), Some(x)) => acc.inter(x),
@@ -143,6 +165,7 @@ pub fn term_info(r: RegLan, alpha: &Alphabet, memo: &mut Memo) -> Arc<TermInfo> 
                 big: infos.iter().any(|i| i.big),
                 alien: infos.iter().any(|i| i.alien),
                 size: 1 + infos.iter().map(|i| i.size).sum::<u32>(),
+                cost,
             }
         }
     };
@@ -167,5 +190,99 @@ pub fn op_count(a: &Ast) -> usize {
     match a {
         Ast::Union(v) | Ast::Inter(v) => v.len(),
         _ => 1,
+    }
+}
+
+/// bound of the sizing probe (states of the derivative automaton in a scratch manager)
+pub const PROBE_CAP: usize = 600;
+
+fn copy_term(
+    r: RegLan,
+    m: &mut aws_smt_strings::regular_expressions::ReManager,
+    memo: &mut HashMap<usize, RegLan>,
+) -> RegLan {
+    if let Some(&x) = memo.get(&key(r)) {
+        return x;
+    }
+    let x = match r.verif_expr() {
+        BaseRegLan::Empty => m.empty(),
+        BaseRegLan::Epsilon => m.epsilon(),
+        BaseRegLan::Range(set) => m.char_set(*set),
+        BaseRegLan::Concat(a, b) => {
+            let a = copy_term(a, m, memo);
+            let b = copy_term(b, m, memo);
+            m.concat(a, b)
+        }
+        BaseRegLan::Loop(e, range) => {
+            let e = copy_term(e, m, memo);
+            m.mk_loop(e, *range)
+        }
+        BaseRegLan::Complement(e) => {
+            let e = copy_term(e, m, memo);
+            m.complement(e)
+        }
+        BaseRegLan::Union(l) => {
+            let v: Vec<RegLan> = l.iter().map(|x| copy_term(x, m, memo)).collect();
+            m.union_list(v)
+        }
+        BaseRegLan::Inter(l) => {
+            let v: Vec<RegLan> = l.iter().map(|x| copy_term(x, m, memo)).collect();
+            m.inter_list(v)
+        }
+    };
+    memo.insert(key(r), x);
+    x
+}
+
+fn dag_size(r: RegLan, seen: &mut std::collections::HashSet<usize>) -> usize {
+    if !seen.insert(key(r)) {
+        return 0;
+    }
+    1 + match r.verif_expr() {
+        BaseRegLan::Concat(a, b) => dag_size(a, seen) + dag_size(b, seen),
+        BaseRegLan::Loop(e, _) | BaseRegLan::Complement(e) => dag_size(e, seen),
+        BaseRegLan::Union(l) | BaseRegLan::Inter(l) => {
+            l.iter().map(|x| dag_size(x, seen)).sum::<usize>()
+        }
+        _ => 0,
+    }
+}
+
+/// a derivative with more distinct sub-terms than this makes the term "heavy"
+pub const PROBE_NODE_CAP: usize = 120;
+
+/// Sizing probe: rebuild the term in a scratch manager (never the one under observation, so the
+/// observed manager's store and cache are untouched) and enumerate its derivatives there, giving
+/// up at PROBE_CAP terms or at the first derivative with more than PROBE_NODE_CAP distinct
+/// sub-terms. Some(n): n derivatives, all small; None: heavy (or the probe failed).
+/// Searches over the whole derivative graph are only requested for terms that pass the probe:
+/// beyond it they are legitimately slow, and a clock must not be turned into an oracle.
+pub fn sizing_probe(r: RegLan) -> Option<usize> {
+    let res = crate::calls::guarded(|| {
+        let mut m = aws_smt_strings::regular_expressions::ReManager::new();
+        let mut memo = HashMap::new();
+        let c = copy_term(r, &mut m, &mut memo);
+        let mut n = 0usize;
+        let mut it = m.iter_derivatives(c);
+        loop {
+            match it.next() {
+                None => return Some(n),
+                Some(x) => {
+                    n += 1;
+                    if n > PROBE_CAP {
+                        return None;
+                    }
+                    let x: RegLan = unsafe { &*(x as *const aws_smt_strings::regular_expressions::RE) };
+                    let mut seen = std::collections::HashSet::new();
+                    if dag_size(x, &mut seen) > PROBE_NODE_CAP {
+                        return None;
+                    }
+                }
+            }
+        }
+    });
+    match res {
+        Ok(x) => x,
+        Err(_) => None,
     }
 }
